@@ -532,4 +532,57 @@ theorem recognizeHttp_no_colon_refused (method path : Bytes) (hm : method ≠ st
   have := findSep_skip [] h
   simpa [findSep] using this
 
+
+/-! ### concrete instances (the hypotheses are satisfiable; the function's value) -/
+
+section Examples
+
+/-- `http://www.example.com:8080/?a=b&c=d` -/
+def ex1 : Target := ⟨str "http", str "www.example.com", false, some (str "8080"), str "/", some (str "a=b&c=d")⟩
+/-- `http://[::1]` -/
+def ex2 : Target := ⟨str "http", str "::1", true, none, [], none⟩
+/-- `http://h?a?b` -/
+def ex3 : Target := ⟨str "http", str "h", false, none, [], some (str "a?b")⟩
+/-- `http://[fe80::1]:8443/a:b/c://d/?x=http://y/` -/
+def ex4 : Target := ⟨str "http", str "fe80::1", true, some (str "8443"), str "/a:b/c://d/", some (str "x=http://y/")⟩
+
+example : ex1.render = str "http://www.example.com:8080/?a=b&c=d" := by decide +kernel
+example : ex2.render = str "http://[::1]" := by decide +kernel
+example : ex3.render = str "http://h?a?b" := by decide +kernel
+example : ex4.render = str "http://[fe80::1]:8443/a:b/c://d/?x=http://y/" := by decide +kernel
+
+example : ex1.WF :=
+  ⟨by decide +kernel, by decide +kernel, by decide +kernel,
+   fun p hp => ⟨8080, by cases hp; decide +kernel, by cases hp; decide +kernel⟩, by decide +kernel⟩
+example : ex2.WF :=
+  ⟨by decide +kernel, by decide +kernel, by decide +kernel, (fun p hp => by cases hp), by decide +kernel⟩
+example : ex3.WF :=
+  ⟨by decide +kernel, by decide +kernel, by decide +kernel, (fun p hp => by cases hp), by decide +kernel⟩
+example : ex4.WF :=
+  ⟨by decide +kernel, by decide +kernel, by decide +kernel,
+   fun p hp => ⟨8443, by cases hp; decide +kernel, by cases hp; decide +kernel⟩, by decide +kernel⟩
+
+example : recognizeHttp (str "POST") (str "http://www.example.com:8080/?a=b&c=d")
+    = some (.http (str "www.example.com") 8080) := by decide +kernel
+example : recognizeHttp (str "GET") (str "http://[::1]") = some (.http (str "[::1]") 80) := by decide +kernel
+example : recognizeHttp (str "GET") (str "http://h?a?b") = some (.http (str "h") 80) := by decide +kernel
+example : recognizeHttp (str "GET") (str "http://[fe80::1]:8443/a:b/c://d/?x=http://y/")
+    = some (.http (str "[fe80::1]") 8443) := by decide +kernel
+example : recognizeHttp (str "GET") (str "/x") = none := by decide +kernel
+example : recognizeHttp (str "GET") (str "/index.html?u=http://a/") = none := by decide +kernel
+example : recognizeHttp (str "CONNECT") (str "www.example.com:443")
+    = some (.https (str "www.example.com") 443) := by decide +kernel
+example : recognizeHttp (str "CONNECT") (str "[::1]:443") = some (.https (str "[::1]") 443) := by decide +kernel
+-- bad ports
+example : recognizeHttp (str "GET") (str "http://h:65536/") = none := by decide +kernel
+example : recognizeHttp (str "GET") (str "http://h:/") = none := by decide +kernel
+example : recognizeHttp (str "GET") (str "http://h:8o/") = none := by decide +kernel
+example : recognizeHttp (str "CONNECT") (str "h") = none := by decide +kernel
+-- the hypothesis of `recognizeHttp_origin_form_refused` is needed: an origin-form target whose
+-- path contains "://" is taken for an absolute-form one
+example : recognizeHttp (str "GET") (str "/x://evil.example/") = some (.http (str "evil.example") 80) := by
+  decide +kernel
+
+end Examples
+
 end Octo.Hs
